@@ -33,6 +33,8 @@ type Report struct {
 	Assume []string
 	start  time.Time
 	seen   map[string]bool
+
+	selfRegression bool // thorough tier: the self-validation catalogue found the check itself wanting
 }
 
 func NewReport(prop, tier string, seed int) *Report {
@@ -298,6 +300,9 @@ func (r *Report) Finish(verifDir string, p *Prog, explanation string, extra map[
 	fmt.Printf("%s %s: %d obligations, %d hold, %d known findings, %d violations (%.1fs)\n", r.Prop, r.Tier, len(r.Obs), nOK, nKnown, nViol, time.Since(r.start).Seconds())
 	if nViol > 0 {
 		return 1
+	}
+	if r.selfRegression {
+		return 2
 	}
 	return 0
 }
